@@ -23,6 +23,10 @@ Definition E_MANY_COMPRESS : N := 3.    (* "too many certificate compression met
 Definition E_MANY_PSKMODES : N := 4.    (* "too many PSK Key Exchange modes" *)
 Definition E_MANY_VERSIONS : N := 5.    (* "too many supported versions" *)
 Definition E_BAD_BINDER : N := 6.       (* "FakePreSharedKeyExtension.Read failed: invalid binder size" *)
+Definition E_MANY_POINTS : N := 7.      (* "too many supported point formats"             [fix C08-one-byte-prefix-overflow] *)
+Definition E_ALPS_NAME_LONG : N := 8.   (* "application settings protocol name too long"  [same fix] *)
+Definition E_RENEG_LONG : N := 9.       (* "renegotiated connection too long"             [same fix] *)
+Definition E_MANY_TB_PARAMS : N := 22.  (* "too many token binding key parameters"        [same fix] *)
 Definition E_PARSE : N := 10.           (* Write: "unable to read ... extension data" / "invalid PSK extension" *)
 Definition E_STATUS_TYPE : N := 11.     (* Write: status type is not OCSP *)
 Definition E_SNI_MULTI : N := 12.       (* Write: multiple names of the same name_type *)
@@ -234,8 +238,9 @@ Definition ext_read (e : ext) (n : N) : res bytes :=
       guarded n (ext_len e)
         (enc_u16 ID_CURVES ++ enc_u16 (2 + 2 * blen cs) ++ enc_u16 (2 * blen cs) ++ flat_map enc_u16 cs)
   | ESupportedPoints ps =>                                                       (* :347 *)
-      guarded n (ext_len e)
-        (enc_u16 ID_POINTS ++ enc_u16 (1 + blen ps) ++ enc_u8 (blen ps) ++ ps)
+      if n <? ext_len e then Err E_SHORT
+      else if 255 <? blen ps then Err E_MANY_POINTS
+      else Ok (enc_u16 ID_POINTS ++ enc_u16 (1 + blen ps) ++ enc_u8 (blen ps) ++ ps)
   | ESignatureAlgorithms a =>                                                    (* :408 *)
       guarded n (ext_len e)
         (enc_u16 ID_SIGALGS ++ enc_u16 (2 + 2 * blen a) ++ enc_u16 (2 * blen a) ++ flat_map enc_u16 a)
@@ -246,11 +251,13 @@ Definition ext_read (e : ext) (n : N) : res bytes :=
       guarded n (ext_len e)
         (enc_u16 ID_ALPN ++ enc_u16 (protos_len ps + 2) ++ enc_u16 (protos_len ps) ++ protos_bytes ps)
   | EApplicationSettings ps =>                                                   (* :708, :769 *)
-      guarded n (ext_len e)
-        (enc_u16 ID_ALPS ++ enc_u16 (protos_len ps + 2) ++ enc_u16 (protos_len ps) ++ protos_bytes ps)
+      if n <? ext_len e then Err E_SHORT
+      else if existsb (fun s => 255 <? blen s) ps then Err E_ALPS_NAME_LONG   (* for _, s := range ... { if len(s) > 255 } *)
+      else Ok (enc_u16 ID_ALPS ++ enc_u16 (protos_len ps + 2) ++ enc_u16 (protos_len ps) ++ protos_bytes ps)
   | EApplicationSettingsNew ps =>                                                (* :708, :808 *)
-      guarded n (ext_len e)
-        (enc_u16 ID_ALPS_NEW ++ enc_u16 (protos_len ps + 2) ++ enc_u16 (protos_len ps) ++ protos_bytes ps)
+      if n <? ext_len e then Err E_SHORT
+      else if existsb (fun s => 255 <? blen s) ps then Err E_ALPS_NAME_LONG
+      else Ok (enc_u16 ID_ALPS_NEW ++ enc_u16 (protos_len ps + 2) ++ enc_u16 (protos_len ps) ++ protos_bytes ps)
   | ESCT => guarded n 4 (enc_u16 ID_SCT ++ [0; 0])                               (* :849 *)
   | EGeneric id d =>                                                             (* :884 *)
       guarded n (ext_len e) (enc_u16 id ++ enc_u16 (blen d) ++ d)
@@ -285,15 +292,17 @@ Definition ext_read (e : ext) (n : N) : res bytes :=
         (enc_u16 ID_COOKIE ++ enc_u16 (2 + blen c) ++ enc_u16 (blen c) ++ c)
   | ENPN _ => guarded n 4 (enc_u16 ID_NPN ++ [0; 0])                             (* :1606 *)
   | ERenegotiationInfo _ c =>                                                    (* :1648 *)
-      guarded n (ext_len e)
-        (enc_u16 ID_RENEGOTIATION ++ enc_u16 (1 + blen c) ++ enc_u8 (blen c) ++ c)
+      if n <? ext_len e then Err E_SHORT
+      else if 255 <? blen c then Err E_RENEG_LONG
+      else Ok (enc_u16 ID_RENEGOTIATION ++ enc_u16 (1 + blen c) ++ enc_u8 (blen c) ++ c)
   | EFakeChannelID old =>                                                        (* :1720 *)
       guarded n 4 (enc_u16 (if old then ID_CHANNEL_ID_OLD else ID_CHANNEL_ID) ++ [0; 0])
   | EFakeRecordSizeLimit l =>                                                    (* :1757 *)
       guarded n 6 (enc_u16 ID_RECORD_SIZE_LIMIT ++ [0; 2] ++ enc_u16 l)
   | EFakeTokenBinding ma mi p =>                                                 (* :1811 *)
-      guarded n (ext_len e)
-        (enc_u16 ID_TOKEN_BINDING ++ enc_u16 (ext_len e - 4) ++ [ma; mi] ++ enc_u8 (blen p) ++ p)
+      if n <? ext_len e then Err E_SHORT
+      else if 255 <? blen p then Err E_MANY_TB_PARAMS
+      else Ok (enc_u16 ID_TOKEN_BINDING ++ enc_u16 (ext_len e - 4) ++ [ma; mi] ++ enc_u8 (blen p) ++ p)
   | EFakeDelegatedCredentials a =>                                               (* :1885 *)
       guarded n (ext_len e)
         (enc_u16 ID_DELEGATED_CREDENTIALS ++ enc_u16 (2 + 2 * blen a) ++ enc_u16 (2 * blen a)
